@@ -11,7 +11,8 @@ EXPLANATION = ("Views are (source, absolute region[, absolute cursor]). Decided 
                "(Source::read/read_exact/get_slice/cut, SliceParser::new, view constructors) only through Region::cut_rel, "
                "cut_rel_asize or `region.begin() + offset`; (R3) each ByteRegion method resolves to the same callee sequence as "
                "its ByteSlice twin; (R4) ByteStream::read caps the buffer by region.end() - cursor and advances by the returned "
-               "count, and size_left/size/offset are end-cursor / region.size() / cursor-begin. Byte equality of the views is not decided.")
+               "count, and size_left/size/offset are end-cursor / region.size() / cursor-begin. Byte equality of the views is not decided."
+               ' Added later: (R6) SeekableDecoder::read waits for min(offset + buf.len(), total), nothing coarser.')
 ASSUMPTIONS = ["Source implementations honour absolute regions (C06/C07 rules)", "rustc MIR construction and trait resolution"]
 
 VIEW_TYPES = ["bases::reader::Reader", "bases::reader::CheckReader", "reader::byte_region::ByteRegion", "reader::byte_slice::ByteSlice"]
